@@ -833,7 +833,10 @@ func c06SwapDatagrams(qc *c06QuicCase, i, j int) {
 }
 
 // corrupt one byte of one datagram; packets covering it stop authenticating
-func (g *c06Gen) quicCorrupt(qc *c06QuicCase) {
+func (g *c06Gen) quicCorrupt(qc *c06QuicCase) { g.quicCorruptFrom(qc, 0) }
+
+// same, but never within the first `minIdx` bytes of the datagram (connection ids stay intact)
+func (g *c06Gen) quicCorruptFrom(qc *c06QuicCase, minIdx int) {
 	r := g.r
 	d := r.Intn(len(qc.datagrams))
 	if len(qc.datagrams[d]) == 0 {
@@ -846,6 +849,9 @@ func (g *c06Gen) quicCorrupt(qc *c06QuicCase) {
 	i := r.Intn(len(qc.datagrams[d]))
 	if r.Chance(0.5) {
 		i = r.Intn(min(len(qc.datagrams[d]), 60)) // header area
+	}
+	if i < minIdx {
+		i = min(minIdx+i, len(qc.datagrams[d])-1)
 	}
 	qc.datagrams[d] = append([]byte(nil), qc.datagrams[d]...)
 	qc.datagrams[d][i] ^= 1 << uint(r.Intn(8))
